@@ -1262,6 +1262,13 @@ fn gen_c03(rng: &mut Rng, r: u64) -> Value {
     }
     let mut v = victim_write(rng, keyed, 0, len, 0);
     v["mode"] = json!(f.1);
+    if f.1 == "async" && len >= 2 && (v["entry"] == "opts" || v["entry"] == "create") && rng.chance(1, 3) {
+        // a write future is dropped after one poll (its background write is still parked by the scheduler) and the
+        // caller goes on with other data: whatever ends up under a content address must still be the data of that address
+        let a = rng.range(1, len - 1);
+        v["chunks"] = json!([a, len - a]);
+        v["abandon_chunks"] = json!([0]);
+    }
     // declared sizes that do not match the data, on both sides of the mmap threshold: the commit is rejected,
     // but whatever reaches the content area must still be exactly the data of its address
     if v["entry"] == "opts" && rng.chance(1, 2) {
